@@ -228,7 +228,8 @@ fn dfs(st: &InflateState, m: &Model, t: &Truth, depth: u8, cx: &mut Ctx, path: &
             v.msg = format!("{} [path {:?}]", v.msg, path.iter().map(|&i| letter(i)).collect::<Vec<_>>());
             v
         })?;
-        if path.len() >= 3 && (m2.had_pending_return || m2.finish_could_not) {
+        // (fingerprints only for length-3 paths: deeper ones would cost more memory than they inform)
+        if path.len() == 3 && (m2.had_pending_return || m2.finish_could_not) {
             cx.sub_nontrivial(crate::oracle::sums::fnv64(format!("{path:?}{}", t.data.len()).as_bytes()));
         }
         dfs(&s2, &m2, t, depth - 1, cx, path)?;
